@@ -135,8 +135,9 @@ def session_class():
             self.join_kwargs = {}
             self.user_errors = []
 
-        def _beh(self, name, result=None):
-            b = self.behave(name)
+        def _beh(self, name, result=None, b=None):
+            if b is None:
+                b = self.behave(name)
             if b == "raise":
                 raise RuntimeError("user %s failed" % name)
             if b == "pending":
@@ -155,9 +156,10 @@ def session_class():
 
         def onWelcome(self, welcome):
             self.rec.append(("onWelcome", welcome.session))
-            if self.behave("onWelcome") == "deny":
+            b = self.behave("onWelcome")
+            if b == "deny":
                 return "denied by user"
-            return self._beh("onWelcome", None)
+            return self._beh("onWelcome", None, b)
 
         def onJoin(self, details):
             self.rec.append(("onJoin", details.session))
